@@ -380,18 +380,61 @@ fn check_follower(c: &mut Ctx, expected: usize) -> Check {
     }
 }
 
+/// What `check C10` runs: its own store/HTTP cases, plus command and handler programs from
+/// the C19 / C15 generators for the nu entry points (`.append`, `.cas`, return values) - of
+/// their verdicts only the content clauses (class Cas) are C10's business.
+#[derive(Clone, Debug, Serialize, Deserialize)]
+pub enum C10Any {
+    Store(C10Case),
+    NuCommand(super::c19::C19Case),
+    NuHandler(super::c15::C15Case),
+}
+
+pub fn strategy_any() -> BoxedStrategy<C10Any> {
+    prop_oneof![
+        5 => strategy().prop_map(C10Any::Store),
+        2 => super::c19::strategy().prop_map(C10Any::NuCommand),
+        2 => super::c15::strategy().prop_map(C10Any::NuHandler),
+    ]
+    .boxed()
+}
+
+pub fn run_case_any(case: &C10Any) -> Result<CaseInfo, Fail> {
+    let nu_only_cas = |r: Result<CaseInfo, Fail>, label: &str| match r {
+        Ok(mut info) => {
+            info.labels = vec![label.to_string()];
+            info.nontrivial = true;
+            Ok(info)
+        }
+        Err(f) if f.class == Class::Cas || f.msg.starts_with(INFRA) => Err(f),
+        // anything else the nu checks find is reported by the check of its own property
+        Err(_) => Ok(CaseInfo {
+            nontrivial: false,
+            shape: 0,
+            labels: vec![format!("{label}-other-property-failed")],
+            known: vec![],
+            checks: 0,
+        }),
+    };
+    match case {
+        C10Any::Store(c) => run_case(c),
+        C10Any::NuCommand(c) => nu_only_cas(super::c19::run_case(c), "nu-command-content"),
+        C10Any::NuHandler(c) => nu_only_cas(super::c15::run_case(c), "nu-handler-content"),
+    }
+}
+
 pub fn run(tier: Tier, seed: u64, replay: Option<&std::path::Path>) -> i32 {
     let started = Instant::now();
     let report_as = |c: Class| super::report_as("C10", c);
     if let Some(path) = replay {
-        let case: C10Case = match load_replay(path) {
+        let case: C10Any = match load_replay(path) {
             Ok(c) => c,
             Err(e) => {
                 eprintln!("cannot load replay: {e}");
                 return 2;
             }
         };
-        return match run_case(&case) {
+        return match run_case_any(&case) {
             Ok(_) => {
                 println!("replay {} passes", path.display());
                 0
@@ -408,8 +451,8 @@ pub fn run(tier: Tier, seed: u64, replay: Option<&std::path::Path>) -> i32 {
         };
     }
     for path in replay_files("C10") {
-        if let Ok(case) = load_replay::<C10Case>(&path) {
-            if let Err(f) = run_case(&case) {
+        if let Ok(case) = load_replay::<C10Any>(&path) {
+            if let Err(f) = run_case_any(&case) {
                 if f.msg.starts_with(INFRA) {
                     eprintln!("INFRASTRUCTURE: {}", f.msg);
                     return 2;
@@ -421,18 +464,18 @@ pub fn run(tier: Tier, seed: u64, replay: Option<&std::path::Path>) -> i32 {
         }
     }
     let cases = match tier {
-        Tier::Quick => 500,
-        Tier::Thorough => 8_000,
+        Tier::Quick => 900,
+        Tier::Thorough => 14_000,
     };
-    let out = run_sharded("C10", seed, cases, 200, strategy, run_case);
+    let out = run_sharded("C10", seed, cases, 200, strategy_any, run_case_any);
     let report = Report {
         prop: "C10",
         tier,
         seed,
         level: "exploration",
-        rule: "1..7 byte strings per case (empty, 1 byte, random, ASCII, invalid UTF-8, 8191/8192/8193, 16 KiB, 64 KiB+1, 300 KiB) each written through a generated entry point (cas_insert, cas_insert_sync, cas_writer, cas_writer_sync, POST /cas and POST /{topic} with Content-Length or chunked bodies of several chunk sizes or a Content-Length body written in two parts with a pause, Store::append after cas_insert_sync) and read back through another path (cas_read, cas_read_sync, GET /cas/{hash}), optional kill+reopen in between; a follower opened before the writes reads the content of every frame the instant it is delivered (appender optionally held after its broadcast via the verif sync point). Oracle: reported hash == SHA-256 computed by the harness, read-back bytes identical, empty HTTP body => frame without hash, POST /cas empty => 400. Non-trivial = content that is not valid UTF-8 or longer than 8 KiB. Distinct by (entry, read path, size) sequence hash.",
+        rule: "five cases in nine: 1..7 byte strings per case (empty, 1 byte, random, ASCII, invalid UTF-8, 8191/8192/8193, 16 KiB, 64 KiB+1, 300 KiB) each written through a generated entry point (cas_insert, cas_insert_sync, cas_writer, cas_writer_sync, POST /cas and POST /{topic} with Content-Length or chunked bodies of several chunk sizes or a Content-Length body written in two parts with a pause, Store::append after cas_insert_sync) and read back through another path (cas_read, cas_read_sync, GET /cas/{hash}), optional kill+reopen in between; a follower opened before the writes reads the content of every frame the instant it is delivered (appender optionally held after its broadcast via the verif sync point). Oracle: reported hash == SHA-256 computed by the harness, read-back bytes identical, empty HTTP body => frame without hash, POST /cas empty => 400. Non-trivial = content that is not valid UTF-8 or longer than 8 KiB. Distinct by (entry, read path, size) sequence hash. Four cases in nine are command (C19 generator) and handler (C15 generator) programs for the nu entry points: content piped into `.append` (text, binary, records), returned values, the trigger's own content read back through `.cas` and re-appended, explicit appends the store refuses; of those runs only the content clauses count here (every observable hash retrievable, hashing to itself, byte-equal to what the script produced).",
         assumptions: vec![
-            "nu entry points (.append in handlers/commands, handler return values, command and generator output) are exercised by the C15/C18/C19 checks, which verify content against the CAS for every frame they produce".into(),
+            "generator output content (.recv of generators) is verified by the C18 check".into(),
             "content durability under crash is the C04 check".into(),
         ],
         extra: json!({}),
